@@ -274,6 +274,34 @@ class FmtModel:
             if isinstance(st, ast.If):
                 self._block(st.body if self._truth(self._ev(st.test, env)) else st.orelse, env)
                 continue
+            if isinstance(st, ast.AnnAssign) and isinstance(st.target, ast.Name):
+                if st.value is not None:
+                    env[st.target.id] = self._ev(st.value, env)
+                continue
+            if isinstance(st, ast.AugAssign) and isinstance(st.target, ast.Name) and isinstance(st.op, ast.Add):
+                cur = env.get(st.target.id)
+                add = self._ev(st.value, env)
+                env[st.target.id] = (cur + add) if isinstance(cur, list) and isinstance(add, list) else self._str(cur) + self._str(add)
+                continue
+            if isinstance(st, ast.For) and not st.orelse and isinstance(st.target, ast.Name):
+                seq = self._ev(st.iter, env)
+                if not isinstance(seq, list):
+                    raise AnalysisError(f"loop over a non-list in a format method: {norm(st.iter)[:50]}")
+                for item in seq:
+                    env[st.target.id] = item
+                    self._block(st.body, env)
+                continue
+            if isinstance(st, ast.Expr) and isinstance(st.value, ast.Call) and isinstance(st.value.func, ast.Attribute) and st.value.func.attr in ("append", "extend") \
+                    and isinstance(st.value.func.value, ast.Name) and isinstance(env.get(st.value.func.value.id), list) and len(st.value.args) == 1:
+                v = self._ev(st.value.args[0], env)
+                lst = env[st.value.func.value.id]
+                if st.value.func.attr == "append":
+                    lst.append(v if isinstance(v, (list, bool)) or v is None else self._str(v))
+                else:
+                    lst.extend(v)
+                continue
+            if isinstance(st, ast.Pass):
+                continue
             if isinstance(st, ast.While) and not st.orelse:
                 n = 0
                 while self._truth(self._ev(st.test, env)):
@@ -308,6 +336,8 @@ class FmtModel:
                     return self._decide(base, e.attr)
                 return Sym(f"<{base.tag}.{e.attr}>")
             raise AnalysisError(f"attribute access not modelled: {norm(e)}")
+        if isinstance(e, ast.List):
+            return [self._ev(x, env) for x in e.elts]
         if isinstance(e, ast.JoinedStr):
             parts = []
             for v in e.values:
@@ -367,6 +397,11 @@ class FmtModel:
                     return Sym("<tokfmt(" + " ".join(repr(x) for x in v) + ")>")
                 return Sym("<tokfmt>")
             if isinstance(f, ast.Attribute):
+                if f.attr == "join" and isinstance(f.value, ast.Constant) and not isinstance(e.args[0], (ast.GeneratorExp, ast.ListComp)):
+                    seq = self._ev(e.args[0], env)
+                    if not isinstance(seq, list):
+                        raise AnalysisError(f"join over a non-list: {norm(e)}")
+                    return str(f.value.value).join(self._str(x) for x in seq)
                 if f.attr == "join" and isinstance(f.value, ast.Constant):
                     it = e.args[0]
                     if isinstance(it, (ast.GeneratorExp, ast.ListComp)) and len(it.generators) == 1 and isinstance(it.generators[0].target, ast.Name):
